@@ -9,7 +9,9 @@ check("C01", "MC_Lattice: every game over a cast of 4-5 rating objects x every w
       "design invariants and emits each transition, which is performed on the real classes and judged by Trace.tla - each returned "
       "(mu, sigma) must lie within a first-order double-precision budget of the 40-digit TLA+ transcription of the published rule. "
       "Plus recorded campaigns over the full numeric domain incl. its corners. The continuum is sampled; discrete structure is exhaustive "
-      "on the lattice and class-counted on the campaigns (a missing class fails the run).", MC + TV + RP + HP)
+      "on the lattice and class-counted on the campaigns (a missing class fails the run). Model construction is an operation of the state "
+      "machine (NewModel / Sem!Construct): the configuration a call is judged by is the one its owner asked for. Stratified stages for the "
+      "coincidences random games never hit: kappa floor under the default gamma, ordinal ties, whole-number grids.", MC + TV + RP + HP)
 check("C02", "Lattice transitions (all shapes over the cast x all weak orders, and all rank/score vectors over mixed values) and recorded "
       "campaigns; every result judged slot by slot: shape, id, name, class, the slot's own posterior (another slot's posterior = moved; "
       "another slot's prior sigma = clamp paired wrongly), inputs all-updated or all-untouched.", MC + TV + RP + HP)
@@ -19,35 +21,43 @@ check("C03", "MC_Outcome: pipeline = rule for every tagged vector (TLC); Outcome
       "the specification proves the siblings order-equivalent and demands bit-identical results.", MC + TV + RP + GR)
 check("C04", "Inv_C04: the rule itself is equivariant on every lattice transition (reversed presentation recomputed at 1e-28). Code: all n! team "
       "orders (n <= 4 quick, 5 thorough; sampled above) with member permutations; TLC verifies the sibling is the permuted game and compares "
-      "every player's posterior within twice the budget; partial pairing only for permutations keeping tied teams in order.", MC + TV + GR + HP)
+      "every player's posterior within twice the budget; partial pairing only for permutations keeping tied teams in order. Stratified: every "
+      "exact relation among the sigmas of a team x every rotation of its members; outcome values spanning more than 2^53 in every listing.", MC + TV + GR + HP)
 check("C05", "Inv_C05 on every lattice transition at 1e-30; replayed transitions and recorded campaigns judged for the single-game clauses; "
       "groups: two-team games under win/draw/loss and place exchanges in games without ties.", MC + TV + RP + GR + HP)
 check("C06", "Inv_C06 on the lattice over tau/limit_sigma/kappa/gamma settings; replayed transitions, campaigns incl. domain corners, and league "
       "histories in which every step is judged from the observed pre-state (which must be the previous post-state).", MC + TV + RP + HP)
 check("C07", "Inv_C07 (zero sum at 1e-30) on every lattice transition; replayed transitions and campaigns: zero sum of the observed mu changes "
-      "within the budget of the posteriors plus the Thurstone-Mosteller tie allowance.", MC + TV + RP + HP)
+      "within the accuracy of the steps (1e-9 of each step plus the kernels' stated noise) and the rounding of adding them, plus the "
+      "Thurstone-Mosteller tie allowance.", MC + TV + RP + HP)
 check("C08", "Corners of the numeric domain (+-20 beta, sigma 1e-4..10 beta and 0 with tau > 0, 16-player teams, beta over six orders of magnitude, "
       "kappa 1e-2..1e-8, favourite wins/loses/draws) and boundary-biased campaigns: normal return with finite numbers from the four operations.", TV)
 check("C09", "predict_win: distribution clauses per call; permuted presentations (also of live, re-assigned objects); mu increments from 1 ulp to "
       "10 beta; exact one half for two identical teams; aliased lists; earlier calls of other model instances must change nothing.", TV + GR)
 check("C10", "predict_draw: range per call; order independence (fresh and live objects); two-team widening gaps; equalised totals.", TV + GR)
-check("C11", "predict_rank: rank/probability consistency on the returned floats incl. identical teams and near-ties (same roster summed in another order); rank + draw = 1 for n >= 3.", TV + GR)
+check("C11", "OutcomeInt!Inv4 (Apalache, auxiliary): the ranking rule is in 1..n, order-consistent, 1 for a maximum, for every vector of ordered values. "
+      "predict_rank: rank/probability consistency on the returned floats incl. identical teams, ordinal ties and near-ties (same roster summed in "
+      "another order, totals one ulp apart); rank + draw = 1 for n >= 3.", MC + TV + GR)
 check("C12", "All three predictions within 1e-9 absolute of the 40-digit closed forms of Predict.tla: random games, games after other models' calls, "
       "reconfigured live models, predictions on live re-rated objects in leagues.", TV + HP)
-check("C13", "MC_Grammar: TLC substitutes 20 values at every position of teams / ranks / scores of valid calls, adds structural variants, four "
+check("C13", "MC_Grammar: TLC substitutes 22 values at every position of teams / ranks / scores of valid calls, adds structural variants (whole-list "
+      "replacements, empty lists beside given selectors, options on), four "
       "operations, five models; Inv_Grammar on the design; every transition replayed into the library and judged by WFRateCall/WFTeams "
       "(read from the property's sentence): TypeError/ValueError, no modified rating or model attribute, acceptance of every well-formed in-domain call.", MC + TV + RP)
 check("C14", "MC_Threads: every interleaving of 2-3 callers' threads split at model accesses (ModelReadOnly, ResultIsSequential); MC_Seq: behaviours "
       "of the state machine replayed on live objects; real threads pre-empted at every model access and at every library function call, their "
       "event logs validated by TraceThreads.tla and their results against the sequential run; the same calls in three processes (hash seeds, "
-      "polluting earlier calls); histories; model and argument projections around every call.", MC + TV + RP + GR)
+      "polluting earlier calls); cold start: the first calls of fresh processes made concurrently, pre-empted at sampled lines; SharedArgs.tla: "
+      "callers passing one outcome list (no action writes it; every mutating operation of the real list is logged); histories; model and "
+      "argument projections around every call.", MC + TV + RP + GR)
 check("C15", "Inv_C15 on the lattice of option settings (negative control: TauZeroFallsBack); replayed; groups: model-level against per-call tau / "
       "limit_sigma (each alone, both, explicit None, by position), t including 0 and 0.0: bit-identical results.", MC + TV + RP + GR)
 check("C16", "Inv_C16: the rule is covariant under x3 scaling (PL, BT) and +7.5 shifts on every lattice transition at 1e-28. Code: rescaled (incl. "
       "powers of two) and shifted games; TLC verifies the sibling is the scaled/shifted game; rate within twice the budget, predictions within 1e-12.", MC + TV + GR + HP)
 check("C17", "v, w, vt, wt and the CDF on a dense sweep of [-40, 40] x log-spaced t, random points, +-64 ulp around every branch threshold (located by "
       "bisection on the implementation's observable branch switch), huge |x|, and call patterns (+-x back to back, repeated, interleaved); TLC "
-      "judges each recorded call against the exact V, W, V~, W~, Phi of Kernels.tla at 40 digits with the errors the property states.", TV + HP)
+      "judges each recorded call against the exact V, W, V~, W~, Phi of Kernels.tla at 40 digits with the errors the property states (at the guard "
+      "itself: within 2 per cent, whichever branch was taken).", TV + HP)
 check("C18", "Compare/Ordinal actions of the state machine in MC_Seq behaviours replayed on live objects; recorded comparisons of pairs with many "
       "equal ordinals, foreign operands of every kind, ordinal(z), sorted(), and ask / edit in place / ask again sequences, judged by Rel.tla.", MC + TV + RP)
 check("C19", "Inv_C19 (BT part = full on two teams) on the lattice; the same call on all five classes (TLC verifies the calls correspond): identical "
